@@ -204,6 +204,21 @@ func c01Run(c *engine.Ctx) {
 		c.Sample(map[string]any{"program": `def f: "out"; . as {(def f: "in"; "a"): $x} | [f, $x]`, "forms": len(forms), "definitions": len(defs)})
 	}
 
+	// halt and halt_error stop the program: nothing intercepts them (try, ?, //, ?//, label, first, reduce, paths)
+	c.Sub("halt-passes")
+	if c.MineIdx(6) {
+		halts := []string{"halt", "halt_error", "halt_error(1)", `("bye" | halt_error)`, "({a: 1} | halt_error(5))"}
+		forms := []string{". as [$a] ?// $a | $a | H", ".[]? as [$a] ?// $a | ($a, H)", ". as [$a] ?// {a: $a} ?// $a | [$a] | H", "try H catch 1", "(H)? // 2", "H // 3", "label $l | H, break $l", "first(H, 1)", "[.[]? | H]",
+			". as [$a] ?// $a | try ($a | H) catch 5", "reduce .[]? as $x (0; H)", "[foreach .[]? as $x (0; H)]", "path(H)", "(.[]? |= H)", "1, H, 2", "[1, H]", "{a: H}", "if H then 1 else 2 end", "try (1, H) catch 9", "(1, H) as $x | $x",
+			"def f: H; try f catch 1", "limit(1; H, 2)", "isempty(H)", "[limit(2; repeat(H))]", "try error(H) catch 1", "(.a? // H)", ". as [$a] ?// $a | ($a | H), 7", "[.[]? as [$a] ?// $a | $a] | H", "try (. as [$a] ?// $a | H) catch 4"}
+		for _, h := range halts {
+			for _, f := range forms {
+				compareProgram(c, strings.ReplaceAll(f, "H", h), []any{univ.J(`[1]`), univ.J(`[[1],2]`), nil, univ.J(`{"a":[3]}`)}, nil)
+			}
+		}
+		c.Sample(map[string]any{"program": ". as [$a] ?// $a | $a | halt_error", "input": "[1]", "forms": len(forms), "halts": len(halts)})
+	}
+
 	// labels are lexically scoped: a label of the same name nested inside another one, with closures that break out
 	// defined before, between and inside them
 	c.Sub("label-scoping")
